@@ -54,9 +54,9 @@ def layersOf : Nat → Nat → Bytes → List String
   | fuel + 1, plainLen, body =>
     if body.length ≤ plainLen then []
     else match body with
-      | _ :: k :: d :: rest =>
-        if rest.take 21 = toyPad ∧ 21 ≤ rest.length ∧ (d = 0 ∨ d = 1) then
-          (toString k.toNat ++ (if d = 0 then "F" else "B")) :: layersOf fuel plainLen (rest.drop 21)
+      | _ :: k :: d :: _ :: rest =>
+        if rest.take 20 = toyPad ∧ 20 ≤ rest.length ∧ (d = 0 ∨ d = 1) then
+          (toString k.toNat ++ (if d = 0 then "F" else "B")) :: layersOf fuel plainLen (rest.drop 20)
         else ["?"]
       | _ => ["?"]
 
